@@ -142,7 +142,7 @@ prop("C17", [
 ], ["a synchronous request is never issued while ACKs are pending (the property does not say what happens)",
     "the return value of Close calls after the first is not asserted"],
    nontrivial_classes=["history-with-error-among-acks", "history-with-2-nowait-and-2-waits", "history-with-repeated-close",
-                       "history-close-after-setpid", "history-with-getrules-then-traffic", "concurrent-close"])
+                       "history-close-after-setpid", "history-with-getrules-then-traffic", "concurrent-close", "history-close-with-failing-send"])
 
 prop("C18", [
     S(CLIENT, "^TestC18Regress$", kind="plain"),
